@@ -1,7 +1,176 @@
 import Driver.Util
+import Model.Lock
+/-! Driver for engine `lock` (C05).
+
+Sequential cases (function mode): every call the harness made on a real backend is replayed on
+the specification (`Lock.specStepCmd`, i.e. `CasSpec.step`) *and* on that backend's one-step model
+(`Sqlite.backend`/`Dynamo.backend`/`ETag.backend` with their `program`); all three results must agree.
+
+  begin <backend> <case>
+  c fetch <id> <res…>            res = val <hex> | notFound | other
+  c create <id> <val> <res>      res = ok | exists | other
+  c replace <k> <new> <res>      res = ok | conflict | badHandle | other
+  reopen                         (no model step: the store must persist)
+  end
+
+Concurrent histories (history mode): the recorded events and the linearisation proposed by the
+harness's untrusted search are checked with the verified `Lock.checkWitness`.
+
+  hbegin <backend> <hid>
+  e <i> <inv> <ret> fetch <id> <res…> | create <id> <val> <res> | replace <id> <old> <new> <res>
+  hend <i0,i1,…|none>
+-/
 namespace Driver.Lock
-/-- stub: engine not implemented yet -/
+open _root_.Lock
+
+/-- Executable ETag function for the ETag model (quote, hex, quote): injective and never empty. -/
+def hexTag (v : Val) : ETag.Tag := "\"" ++ Bytes.toHex v ++ "\""
+
+def bSqlite : Backend := Sqlite.backend Sqlite.program
+def bDynamo : Backend := Dynamo.backend Dynamo.program
+def bETag : Backend := ETag.backend hexTag ETag.program
+
+/-- A backend model with its current server state and the handles returned so far. -/
+inductive Sim where
+  | sqlite (s : Sqlite.Table) (hs : List Sqlite.Handle)
+  | dynamo (s : Dynamo.Server) (hs : List Dynamo.Handle)
+  | etag (s : ETag.Objects) (hs : List ETag.Handle)
+
+def Sim.ofName : String → Option Sim
+  | "sqlite" => some (.sqlite bSqlite.init [])
+  | "dynamo" => some (.dynamo bDynamo.init [])
+  | "etag" => some (.etag bETag.init [])
+  | _ => none
+
+def Sim.step : Sim → Cmd → Sim × Res
+  | .sqlite s hs, c => let r := bSqlite.stepCmd s hs c; (.sqlite r.1 r.2.1, r.2.2)
+  | .dynamo s hs, c => let r := bDynamo.stepCmd s hs c; (.dynamo r.1 r.2.1, r.2.2)
+  | .etag s hs, c => let r := bETag.stepCmd s hs c; (.etag r.1 r.2.1, r.2.2)
+
+def parseRes : List String → Option Res
+  | ["val", h] => (Bytes.ofHex h).map Res.val
+  | ["notFound"] => some .notFound
+  | ["ok"] => some .ok
+  | ["exists"] => some .exists_
+  | ["conflict"] => some .conflict
+  | ["badHandle"] => some .badHandle
+  | ["other"] => some .other
+  | _ => none
+
+def showRes : Res → String
+  | .val v => s!"val {Bytes.toHexP v}"
+  | .notFound => "notFound"
+  | .ok => "ok"
+  | .exists_ => "exists"
+  | .conflict => "conflict"
+  | .badHandle => "badHandle"
+  | .other => "other"
+
+def resKind : Res → String
+  | .val v => if v.isEmpty then "val-empty" else if v.contains 0 then "val-nul" else "val"
+  | r => showRes r
+
+def parseCmd : List String → Option (Cmd × Res)
+  | "fetch" :: id :: res => do
+    let i ← Bytes.ofHex id
+    let r ← parseRes res
+    pure (.fetch i, r)
+  | "create" :: id :: v :: res => do
+    let i ← Bytes.ofHex id
+    let v ← Bytes.ofHex v
+    let r ← parseRes res
+    pure (.create i v, r)
+  | "replace" :: k :: v :: res => do
+    let k ← k.toNat?
+    let v ← Bytes.ofHex v
+    let r ← parseRes res
+    pure (.replace k v, r)
+  | _ => none
+
+def parseOp : List String → Option (Op × Res)
+  | "fetch" :: id :: res => do
+    let i ← Bytes.ofHex id
+    let r ← parseRes res
+    pure (.fetch i, r)
+  | "create" :: id :: v :: res => do
+    let i ← Bytes.ofHex id
+    let v ← Bytes.ofHex v
+    let r ← parseRes res
+    pure (.create i v, r)
+  | "replace" :: id :: o :: n :: res => do
+    let i ← Bytes.ofHex id
+    let o ← Bytes.ofHex o
+    let n ← Bytes.ofHex n
+    let r ← parseRes res
+    pure (.replace i o n, r)
+  | _ => none
+
+def parseOrder (s : String) : Option (List Nat) :=
+  if s == "none" then none
+  else if s == "-" then some []
+  else (s.splitOn ",").mapM (·.toNat?)
+
+structure St where
+  t : Driver.Tally := {}
+  sim : Option Sim := none                    -- backend model of the open sequential case
+  spec : State × List (Id × Val) := (State.empty, [])
+  caseName : String := ""
+  hist : Option (Array Event) := none         -- open history
+  hname : String := ""
+
+def St.bad (st : St) (n : Nat) (msg : String) : IO St := do
+  IO.println s!"MISMATCH {n} {msg}"
+  return { st with t := { st.t with mismatches := st.t.mismatches + 1 } }
+
+def St.good (st : St) (branch : String) : St :=
+  { st with t := { st.t.bump branch with ok := st.t.ok + 1 } }
+
+def onLine (st : St) (n : Nat) (l : String) : IO St := do
+  let st := { st with t := { st.t with lines := st.t.lines + 1 } }
+  match Driver.words l with
+  | ["begin", backend, name] =>
+    match Sim.ofName backend with
+    | some m => return { (st.good "case") with sim := some m, spec := (State.empty, []), caseName := backend ++ "/" ++ name }
+    | none => st.bad n s!"unknown backend {backend}"
+  | ["reopen"] => return st.good "reopen"
+  | ["end"] => return { (st.good "end") with sim := none }
+  | "c" :: rest =>
+    match st.sim, parseCmd rest with
+    | some m, some (c, implRes) =>
+      let rs := specStepCmd st.spec.1 st.spec.2 c
+      let (m', modelRes) := m.step c
+      let st := { st with sim := some m', spec := (rs.1, rs.2.1) }
+      if rs.2.2 == implRes && modelRes == implRes then
+        return st.good s!"{rest.headD "?"}:{resKind implRes}"
+      else
+        st.bad n s!"{st.caseName} {" ".intercalate rest}: spec={showRes rs.2.2} backend-model={showRes modelRes} impl={showRes implRes}"
+    | none, _ => st.bad n "call outside a case"
+    | _, none => st.bad n s!"unparsable call: {l}"
+  | ["hbegin", backend, name] =>
+    return { (st.good "history") with hist := some #[], hname := backend ++ "/" ++ name }
+  | "e" :: i :: inv :: ret :: rest =>
+    match st.hist, i.toNat?, inv.toNat?, ret.toNat?, parseOp rest with
+    | some h, some i, some inv, some ret, some (op, res) =>
+      if i != h.size then st.bad n s!"{st.hname}: event index {i}, expected {h.size}"
+      else if ret < inv then st.bad n s!"{st.hname}: event {i} returns before it is invoked"
+      else return { (st.good s!"ev-{rest.headD "?"}:{resKind res}") with hist := some (h.push ⟨op, res, inv, ret⟩) }
+    | none, _, _, _, _ => st.bad n "event outside a history"
+    | _, _, _, _, _ => st.bad n s!"unparsable event: {l}"
+  | ["hend", order] =>
+    match st.hist with
+    | none => st.bad n "hend outside a history"
+    | some h =>
+      let st := { st with hist := none }
+      match parseOrder order with
+      | none => st.bad n s!"{st.hname}: no linearisation proposed for a history of {h.size} events"
+      | some σ =>
+        if checkWitness h.toList σ then return st.good "witness-accepted"
+        else st.bad n s!"{st.hname}: checkWitness rejects the proposed order of {h.size} events"
+  | [] => return st
+  | _ => st.bad n s!"bad-line: {l}"
+
 def main : IO UInt32 := do
-  IO.println "MISMATCH 0 engine lock has no driver yet"
+  let st ← Driver.foldLines ({} : St) onLine
+  IO.println st.t.summary
   return 0
 end Driver.Lock
